@@ -426,7 +426,7 @@ fn gen_schema(rng: &mut Rng) -> Schema {
         let n = cols.len();
         Tab { name, cols, pk, defaults: vec![None; n], rows: vec![] }
     };
-    let kind = *rng.pick(&["chain", "chain", "self", "self", "composite", "two-parents", "unique-ref"]);
+    let kind = *rng.pick(&["chain", "chain", "self", "self", "composite", "composite-reordered", "two-parents", "unique-ref"]);
     let mut m = Model { tabs: vec![], fks: vec![] };
     match kind {
         "chain" => {
@@ -446,6 +446,11 @@ fn gen_schema(rng: &mut Rng) -> Schema {
         "composite" => {
             m.tabs = vec![tab("P", vec!["A", "B", "V"], vec![0, 1]), tab("C", vec!["ID", "PA", "PB", "V"], vec![0])];
             m.fks = vec![Fk { child: 1, cols: vec![1, 2], parent: 0, pcols: vec![0, 1], on_delete: act(rng), on_update: act(rng) }];
+        }
+        "composite-reordered" => {
+            // the REFERENCES list names the parent's key columns in another order than PRIMARY KEY
+            m.tabs = vec![tab("P", vec!["A", "B", "V"], vec![0, 1]), tab("C", vec!["ID", "PB", "PA", "V"], vec![0])];
+            m.fks = vec![Fk { child: 1, cols: vec![1, 2], parent: 0, pcols: vec![1, 0], on_delete: act(rng), on_update: act(rng) }];
         }
         "two-parents" => {
             m.tabs = vec![tab("P", vec!["ID", "V"], vec![0]), tab("Q", vec!["ID", "V"], vec![0]), tab("C", vec!["ID", "PID", "QID", "V"], vec![0])];
@@ -531,7 +536,9 @@ fn gen_row(rng: &mut Rng, m: &Model, t: usize, next: &mut i64) -> Row {
     let tab = &m.tabs[t];
     let mut r: Row = vec![None; tab.cols.len()];
     for c in 0..tab.cols.len() {
-        r[c] = if tab.pk.contains(&c) {
+        r[c] = if tab.pk.contains(&c) && tab.pk.len() > 1 && m.fks.iter().any(|f| f.pcols == vec![1, 0]) {
+            Some(rng.range(1, 7))
+        } else if tab.pk.contains(&c) {
             if tab.pk.len() > 1 { Some(rng.range(1, 5) + if c == tab.pk[0] { 0 } else { (fresh_id(next) % 900) * 10 }) } else { Some(fresh_id(next)) }
         } else if tab.cols[c] == "U" {
             if rng.chance(1, 8) { None } else { Some(500 + fresh_id(next)) }
